@@ -15,6 +15,38 @@ def step_cfg(maxlen, alphabet, invs, overrides=()):
                      + [f"CONSTANT {o}" for o in overrides] + [f"INVARIANT {i}" for i in invs] + ["CHECK_DEADLOCK FALSE"]) + "\n"
 
 
+def url_differential(out, sc, tier, seed):
+    """C05 at URL level: the same generated programs under both back ends, records paired by position (same generator, same seed,
+    same slices), TLC requires every recorded part to be identical (TraceUrl C05.same_url)."""
+    import json
+    from .common import validate
+    params = {"gen": "progs", "n": 5000 if tier == "quick" else 60000, "seed": seed, "typed": True, "encoded_p": 0.25,
+              "depths": [1, 2, 3]}
+    files = {}
+    for be in ("c", "py"):
+        files[be] = run_driver(sc, "url", params, "diff", backend=be, nslices=8, shard_size=10 ** 9)
+    if [f.name.replace("-c-", "-") for f in files["c"]] != [f.name.replace("-py-", "-") for f in files["py"]]:
+        raise MachineryFailure("the two back ends produced different shard sets")
+    shards = []
+    for k, (fc, fp) in enumerate(zip(files["c"], files["py"])):
+        rc, rp = json.loads(fc.read_text()), json.loads(fp.read_text())
+        paired = []
+        for i in range(max(len(rc), len(rp))):
+            a = rc[i] if i < len(rc) else {"act": "missing", "step": -1}
+            b = rp[i] if i < len(rp) else {"act": "missing", "step": -1}
+            if a.get("call") != b.get("call"):
+                # a program stops at its first failing step: from there on the two runs are no longer the same program
+                a, b = dict(a, out={"exc": "misaligned"}), dict(b, out={"exc": "misaligned-other"})
+            keep = ("out", "self", "other", "arg_unchanged")
+            paired.append({"act": "pair", "id": f"pair.{k}.{i}", "step": a.get("step", -1), "call": a.get("call", b.get("call", {})),
+                           "c": {f: a[f] for f in keep if f in a}, "py": {f: b[f] for f in keep if f in b}})
+        for j in range(0, len(paired), 800):
+            pth = sc.work / f"rec-pair-{k:02d}-{j // 800:04d}.json"
+            pth.write_text(json.dumps(paired[j:j + 800], separators=(",", ":")))
+            shards.append(pth)
+    validate(out, sc, "TraceUrl", "C05", shards, "url-differential")
+
+
 def run(out, sc, tier, seed):
     # R1: the two transducers as STEP machines (byte machine with rewinds / code-point machine with look-ahead and the
     # `changed` flag), run side by side: both terminate with the closed forms and agree outside the named deviation
@@ -35,5 +67,6 @@ def run(out, sc, tier, seed):
     if sum(r.records for r in results) != len(recs):
         raise MachineryFailure("TLC consumed a different number of records than were produced")
     out.add_trace_results("8KiB-boundaries", results, recs)
+    url_differential(out, sc, tier, seed)
     from .common import run_witnesses
     run_witnesses(out, sc, "C05")
